@@ -677,6 +677,8 @@ func normaliseChanged(rel string, orig, fd *ast.FuncDecl) *ast.FuncDecl {
 	splitMinBounds(c)
 	expandSlicesEqualPrefix(c)
 	splitSingleExit(c)
+	defaultAsTrailer(c)
+	restoreCaseOrder(funcKey(rel, orig), c)
 	rewriteChains(c.Body.List)
 	earlyContinue(c.Body)
 	after := printNode(c)
